@@ -499,6 +499,7 @@ func (t *Collection) VisitItemsRandom(
 	if err != nil {
 		return err
 	}
+	defer t.store.ItemDecRef(t, si) // Release the reference from MinItem().
 	err = t.VisitItemsAscendEx(si.Key, false, v)
 	if err != nil {
 		return err
@@ -575,6 +576,7 @@ func (t *Collection) VisitItemsAscendBlockEx(
 	if err != nil {
 		return err
 	}
+	defer t.store.ItemDecRef(t, si) // Release the reference from MinItem().
 	err = t.VisitItemsAscendEx(si.Key, false, v)
 	if err != nil {
 		return err
@@ -642,6 +644,7 @@ func (t *Collection) Len() (l int64, err error) {
 	if err != nil || si == nil {
 		return // An empty collection has no minimum item.
 	}
+	defer t.store.ItemDecRef(t, si) // Release the reference from MinItem().
 	err = t.VisitItemsAscendEx(si.Key, false, visitor)
 	return
 }
